@@ -67,6 +67,8 @@ def convert(input_image_stream, output_image_stream):
 
     for ii in range(getbit(pictyp, 7) + 1):
         lines = ord(iotostr(f.read(1)))
+        if lines != 192:
+            raise Exception("unexpected line count {}".format(lines))
         for jj in range(lines):
             u = 0
             y = 0
